@@ -27,6 +27,7 @@ WITH THE SOFTWARE OR THE USE OR OTHER DEALINGS IN THE SOFTWARE.
 #ifndef TSOLVER_H
 #define TSOLVER_H
 
+#include <common/ApiException.h>
 #include "Deductions.h"
 #include "TResult.h"
 
@@ -173,7 +174,7 @@ public:
     virtual void                popBacktrackPoints  ( unsigned int )          ;  // Backtrack given number of points
     virtual TRes                check               ( bool ) = 0              ;  // Check satisfiability
     inline std::string          getName             ( ) { return name; }         // The name of the solver
-    virtual void fillTheoryFunctions(ModelBuilder &) const { throw std::logic_error{"Model computation not supported for the used theory yet!"}; }
+    virtual void fillTheoryFunctions(ModelBuilder &) const { throw ApiException{"Model computation not supported for the used theory yet!"}; }
     virtual void computeModel() = 0;                      // Compute model for variables
     virtual void getConflict(vec<PtAsgn> &) = 0;          // Return conflict
     virtual vec<PtAsgn> getReasonFor(PtAsgn lit);
